@@ -37,6 +37,18 @@ CHECKS = {
   'the simulator holds the only strong reference to each handler (or hands it to a World as sole owner); for multi-listener dispatches the last reference to listener j is dropped from the callback of listener i (quick: 3 sampled pairs; thorough: all pairs) under five listener orders; a receiver monitor runs inside every callback, weakref death is verified at the next quiescent point, GC is an explicit operation, unraisable exceptions are captured.',
   'trusted: CPython refcount semantics for immediate death; collector disabled during runs',
   'deterministic simulation: reference-drop fault at every (caller, victim) pair, receiver-identity monitor'),
+ 'C08': ('coro', 'exploration', 'DESIGN.md 3/C08',
+  'a real CoroutineProcessor is stepped frame by frame in virtual time (generated dt: zero, uneven, jumps; exact dyadic values) with 1-6 scripted generator coroutines whose waits overlap, restart the shared timer, share deadlines; a predictive model decides for every frame which coroutine must advance (exactly once), wake times are exact, order stability is checked for coroutines continuously runnable.',
+  'trusted: CoroModel; exactly representable dt/wait values; bodies do not raise',
+  'deterministic simulation in virtual time: seeded dt/yield/start schedules vs. predictive wake-time model'),
+ 'C09': ('coro', 'exploration', 'DESIGN.md 3/C09',
+  'C08 workload plus start/kill/promise.kill/state/value/decorator path issued between frames and from inside coroutine bodies (own and other), kill;start idiom with 0-2 frames in between, non-generators; lifecycle state machine model checked at every read, exceptions of start/kill, process never failing, release observed through refcounts at the frame the model says it is due.',
+  'trusted: CoroModel; refcount-based release observation (CPython); a finished generator that is started again may read ACTIVE or TERMINATED until its next turn',
+  'deterministic simulation: seeded start/kill placement relative to frame phases, lifecycle model, refcount release probe'),
+ 'C20': ('transform', 'exploration', 'DESIGN.md 3/C20',
+  'assignment histories on Transform2D/3D instances with shared listeners under five listener orders; each notification is compared with the property read inside the callback and right after the assignment; cross-event and cross-transform silence; constructor values and independence of defaults. Little schedule dimension, no faults (stated weakness).',
+  'trusted: exact arithmetic on the chosen values; dispatching stays enabled',
+  'deterministic simulation: seeded assignment/listener histories, delivery log vs. read-back'),
 }
 NA = {
  'C18': 'pure arithmetic on immutable tuples: no state, schedule, clock, I/O or fault for a simulator to decide (DESIGN.md section 3, C18)',
